@@ -791,6 +791,46 @@ def c16_systematic():
     return out
 
 
+def c16_serde_attrs():
+    """Types that also carry serde derives and serde field attributes (defaults, skips, aliases of Option): the
+    description follows the Rust type of the field, whatever serde is told about it."""
+    fields = [
+        ('#[serde(default)]', "count", "i64", "GTy::Int"),
+        ('#[serde(default)]', "label", "Option<String>", "GTy::Optional(Box::new(GTy::Str))"),
+        ('#[serde(default)]', "boxed", "Box<Option<String>>", "GTy::Optional(Box::new(GTy::Str))"),
+        ('#[serde(default)]', "aliased", "Label", "GTy::Optional(Box::new(GTy::Str))"),
+        ('#[serde(default = "some_ints")]', "ints", "Vec<i64>", "GTy::Array(Box::new(GTy::Int))"),
+        ('#[serde(skip_serializing_if = "Option::is_none")]', "flag", "Option<bool>", "GTy::Optional(Box::new(GTy::Bool))"),
+        ('#[serde(default, skip_serializing_if = "String::is_empty")]', "text", "String", "GTy::Str"),
+        ('#[serde(default)]', "table", "std::collections::BTreeMap<String, f64>", "GTy::Map(Box::new(GTy::Float))"),
+    ]
+    out = []
+    for which, name in enumerate(["TSerdeType", "TSerdeCustom", "TSerdeError"]):
+        s = [f"//! generated: serde attributes next to the introspection derives ({name})\n#![allow(unused, non_snake_case, non_camel_case_types, clippy::all)]\nuse crate::prelude::*;\nuse crate::idl::*;\n\n"]
+        s.append("pub type Label = Option<String>;\nfn some_ints() -> Vec<i64> { vec![1] }\n\n")
+        fexp = "vec![" + ", ".join(f'GField {{ name: "{fn}".into(), comments: vec![], ty: {g} }}' for _, fn, t, g in fields) + "]"
+        if which < 2:
+            derive = "zlink_core::introspect::Type" if which == 0 else "zlink_core::introspect::CustomType"
+            s.append(f'#[derive(serde::Serialize, serde::Deserialize, {derive})]\n#[zlink(crate = "zlink_core")]\npub struct {name} {{\n')
+            for attr, fn, t, g in fields:
+                s.append(f"    {attr}\n    pub {fn}: {t},\n")
+            s.append("}\n\n")
+            if which == 0:
+                check = f'check_type(rep, "{name}", <{name} as zlink_core::introspect::Type>::TYPE, &GTy::Struct({fexp}));'
+            else:
+                check = (f'check_custom(rep, "{name}", <{name} as zlink_core::introspect::CustomType>::CUSTOM_TYPE, &GMember::Type {{ name: "{name}".into(), comments: vec![], body: GBody::Struct({fexp}) }});\n'
+                         f'        check_type(rep, "{name}", <{name} as zlink_core::introspect::Type>::TYPE, &GTy::Custom("{name}".into()));')
+        else:
+            s.append(f'#[derive(serde::Serialize, serde::Deserialize, zlink_core::introspect::ReplyError)]\n#[zlink(crate = "zlink_core")]\npub enum {name} {{\n    Broken {{\n')
+            for attr, fn, t, g in fields:
+                s.append(f"        {attr}\n        {fn}: {t},\n")
+            s.append("    },\n}\n\n")
+            check = f'check_errors(rep, "{name}", <{name} as zlink_core::introspect::ReplyError>::VARIANTS, &[GMember::Error {{ name: "Broken".into(), comments: vec![], fields: {fexp} }}]);'
+        s.append(f'#[cfg(feature = "drivers")]\npub mod drv {{\n    use super::*;\n    pub fn all(rep: &mut Report, _rng: &mut Rng) {{\n        {check}\n    }}\n}}\n')
+        out.append("".join(s))
+    return out
+
+
 # ---------------------------------------------------------------------------------------------
 n12, n05, n16 = (20, 28, 80) if size == "quick" else (60, 80, 200)
 mods = []
@@ -850,6 +890,9 @@ for k in range(n16, n16 + (30 if size == "quick" else 60)):
     open(os.path.join(out, f"t{k}.rs"), "w").write(gen_c16(k))
     mods.append(("c16", f"t{k}"))
 DOC_FORCE[0] = False
+for k, text in enumerate(c16_serde_attrs()):
+    open(os.path.join(out, f"tse{k}.rs"), "w").write(text)
+    mods.append(("c16", f"tse{k}"))
 for k, text in enumerate(c16_systematic()):
     open(os.path.join(out, f"ts{k}.rs"), "w").write(text)
     mods.append(("c16", f"ts{k}"))
